@@ -28,6 +28,13 @@ Definition obs_cmp (a b : list N) : list N :=
   | _, _ => asc "E"
   end.
 
+(* v.cmp plus "the two keys are structurally equal" (the implementation side reports hash(x) == hash(y)) *)
+Definition obs_cmph (a b : list N) : list N :=
+  match Version a, Version b with
+  | Some x, Some y => obs_cmp a b ++ bar ++ show_bool (pv_eqb (key x) (key y))
+  | _, _ => asc "E"
+  end.
+
 Definition obs_sort (args : list (list N)) : list N :=
   match all_some (map Version args) with
   | Some vs => join [44] (map vstr (sort_v vs))
@@ -39,6 +46,7 @@ Definition obs_canon (strip : bool) (s : list N) : list N := canon strip s.
 Definition run_version (cmd : list N) (args : list (list N)) : option (list N) :=
   if seqb cmd (asc "v.parse") then Some (obs_version (nth_str 0 args))
   else if seqb cmd (asc "v.cmp") then Some (obs_cmp (nth_str 0 args) (nth_str 1 args))
+  else if seqb cmd (asc "v.cmph") then Some (obs_cmph (nth_str 0 args) (nth_str 1 args))
   else if seqb cmd (asc "v.sort") then Some (obs_sort args)
   else if seqb cmd (asc "v.canon") then Some (obs_canon (parse_bool (nth_str 0 args)) (nth_str 1 args))
   else None.
